@@ -161,3 +161,131 @@ Print Assumptions C18_gen_wellformed_old_iff.
 Theorem C18_mem_gen_wellformed : forall ps nres, gen_wellformed ps nres = true.
 Proof. exact mem_gen_wellformed. Qed.
 Print Assumptions C18_mem_gen_wellformed.
+
+(* ================= re-entrant call sequences =================
+   The memoised function is usually called by f itself (fib = deriveMem(func(i) { .. fib(i-1) ..
+   })): the look-up of the outer call, the run of f — with inner calls of the same closure that
+   look up and store into the same table — and the outer store happen on different tables.
+   [rmem_run_with hashr ps inner fin n h] runs the emitted closure (Mem/Reentrant.v: rcall) over
+   the outer history h for the f that, on arguments a, calls the memoised function on [inner a]
+   in order and then returns [fin a <results of those calls>] (a panic of an inner call
+   propagates); n is fuel.  [rfun inner fin rank] is the un-memoised recursive function these
+   equations define.  [wf_reentrant]: inner arguments are well-typed and of smaller rank, Equal
+   tuples have the same rank (an inner argument is never Equal to an argument whose evaluation
+   is in progress — real Go recurses for ever otherwise); [enough_fuel]: n exceeds the rank of
+   every outer argument.  All four emitted forms; any hash function under which Equal tuples
+   collide (all other collisions arbitrary). *)
+From Verif Require Import Mem.Reentrant Mem.ReProofs Mem.ReInst.
+
+(* Every outer call returns what the un-memoised recursive function returns (so does every
+   inner call: that is how the outer result comes out right). *)
+Theorem C18_rmem_observational : forall ps inner fin rank hashr n h st outs,
+  wf_reentrant ps inner rank -> hash_respects ps hashr -> f_respects_classes ps (rfun inner fin rank) ->
+  typed_history ps h -> enough_fuel rank n h ->
+  rmem_run_with hashr ps inner fin n h = ROk (st, outs) -> outs = map (rfun inner fin rank) h.
+Proof. exact rmem_observational. Qed.
+Print Assumptions C18_rmem_observational.
+
+(* f is invoked at most once for each class of Equal argument tuples on which it returns —
+   inner and outer invocations counted together — and exactly once for the class of every
+   outer call. *)
+Theorem C18_rmem_at_most_once : forall ps inner fin rank hashr n h st outs c,
+  wf_reentrant ps inner rank -> hash_respects ps hashr -> f_respects_classes ps (rfun inner fin rank) ->
+  typed_history ps h -> enough_fuel rank n h ->
+  rmem_run_with hashr ps inner fin n h = ROk (st, outs) ->
+  args_typed ps c = true -> returns (rfun inner fin rank) c = true ->
+  (count_class (args_equal ps) c (f_calls st) <= 1)%nat
+  /\ (In c h -> count_class (args_equal ps) c (f_calls st) = 1%nat).
+Proof. exact rmem_at_most_once. Qed.
+Print Assumptions C18_rmem_at_most_once.
+
+(* ... and exactly once for the class of every inner call of an invocation that returned
+   (hence, along the calls, for the whole call tree below a returning outer call). *)
+Theorem C18_rmem_inner_once : forall ps inner fin rank hashr n h st outs x b,
+  wf_reentrant ps inner rank -> hash_respects ps hashr -> f_respects_classes ps (rfun inner fin rank) ->
+  typed_history ps h -> enough_fuel rank n h ->
+  rmem_run_with hashr ps inner fin n h = ROk (st, outs) ->
+  In x (f_calls st) -> returns (rfun inner fin rank) x = true -> In b (inner x) ->
+  returns (rfun inner fin rank) b = true /\ count_class (args_equal ps) b (f_calls st) = 1%nat.
+Proof. exact rmem_inner_once. Qed.
+Print Assumptions C18_rmem_inner_once.
+
+(* The table is the emitted form's layout ([tinv]: memoized flag and result variables / map in
+   insertion order / every bucket the entries of its hash in insertion order) of the cache of an
+   ideal memoiser over classes ([irun]: no table layout, no hash): one entry per class, pairwise
+   not Equal, each holding f of its arguments; and f's invocation log is the ideal memoiser's. *)
+Theorem C18_rmem_refines_ideal : forall ps inner fin rank hashr n h st outs,
+  wf_reentrant ps inner rank -> hash_respects ps hashr -> f_respects_classes ps (rfun inner fin rank) ->
+  typed_history ps h -> enough_fuel rank n h ->
+  rmem_run_with hashr ps inner fin n h = ROk (st, outs) ->
+  exists it, irun inner fin (args_equal ps) n h = ROk (it, outs)
+    /\ tinv key_val hashr (form_of ps) (itab it) (tbl st)
+    /\ f_calls st = icalls it
+    /\ pairwise (fun e1 e2 => args_equal ps (fst e1) (fst e2) = false) (itab it)
+    /\ (forall s rs, In (s, rs) (itab it) -> args_typed ps s = true /\ rfun inner fin rank s = Ret rs).
+Proof. exact rmem_refines_ideal. Qed.
+Print Assumptions C18_rmem_refines_ideal.
+
+Theorem C18_rmem_no_spurious_calls : forall ps inner fin rank hashr n h st outs x,
+  wf_reentrant ps inner rank -> hash_respects ps hashr -> typed_history ps h ->
+  rmem_run_with hashr ps inner fin n h = ROk (st, outs) -> In x (f_calls st) ->
+  exists a, In a h /\ desc inner a x.
+Proof. exact rmem_no_spurious_calls. Qed.
+Print Assumptions C18_rmem_no_spurious_calls.
+
+(* The premise "= ROk" of the theorems above is not vacuous: with enough fuel a run over a typed
+   history ends normally — the closure never panics by itself, is never stuck, never out of
+   fuel — unless the generator refused Equal/Hash of the key type. *)
+Theorem C18_rmem_never_panics : forall ps inner fin rank n h,
+  wf_reentrant ps inner rank -> typed_history ps h -> enough_fuel rank n h ->
+  rok_or_unsup (rmem_run ps inner fin n h).
+Proof. exact rmem_never_panics. Qed.
+Print Assumptions C18_rmem_never_panics.
+
+(* Every argument forced into one bucket — so every inner call collides with the call in
+   progress — changes nothing. *)
+Theorem C18_rmem_collisions_harmless : forall k ps inner fin rank n h st outs,
+  wf_reentrant ps inner rank -> f_respects_classes ps (rfun inner fin rank) ->
+  typed_history ps h -> enough_fuel rank n h ->
+  rmem_run_consthash k ps inner fin n h = ROk (st, outs) ->
+  outs = map (rfun inner fin rank) h
+  /\ (forall c, args_typed ps c = true -> returns (rfun inner fin rank) c = true ->
+        (count_class (args_equal ps) c (f_calls st) <= 1)%nat
+        /\ (In c h -> count_class (args_equal ps) c (f_calls st) = 1%nat)).
+Proof. exact rmem_collisions_harmless. Qed.
+Print Assumptions C18_rmem_collisions_harmless.
+
+(* The flat model of the theorems further up is this model for a function without inner calls. *)
+Theorem C18_rmem_flat_is_mem : forall hashr ps f n h,
+  rmem_run_with hashr ps (fun _ => []) (fun a _ => f a) (S n) h = of_res (mem_run_with hashr ps f h).
+Proof. exact rmem_flat. Qed.
+Print Assumptions C18_rmem_flat_is_mem.
+
+(* The decidable well-foundedness check of the evaluator (functions given by a finite table of
+   rules) implies the hypothesis of the theorems. *)
+Theorem C18_rules_wf_sound : forall ps rules, rules_wf ps rules = true ->
+  wf_reentrant ps (rule_inner ps rules) (rule_rank ps rules).
+Proof. exact rules_wf_sound. Qed.
+Print Assumptions C18_rules_wf_sound.
+
+(* The variant `m[h] = append(vs, mem{..})` of the bucket form's store, with vs the bucket
+   slice read BEFORE f was called ([rmem_run_stale]: the same definition with one flag), is
+   refuted: weight([]int{1,0}) = 1 + weight([]int{0,31}), both slices hash to 16368; every
+   hypothesis of C18_rmem_at_most_once holds and the results are f's, but the entry stored by
+   the inner call is overwritten by the outer store and the class of {0,31} is evaluated twice.
+   The emitted code (m[h] re-read at store time) evaluates it once. *)
+Theorem C18_rmem_stale_bucket_refuted :
+  form_of w_ps = FBuck
+  /\ hashm [] (key_ty w_ps) (key_val (w_a10 3%N)) = hashm [] (key_ty w_ps) (key_val (w_a31 4%N))
+  /\ args_equal w_ps (w_a10 3%N) (w_a31 4%N) = false
+  /\ wf_reentrant w_ps w_inner w_rank /\ f_respects_classes w_ps (rfun w_inner w_fin w_rank)
+  /\ typed_history w_ps w_h /\ enough_fuel w_rank 3 w_h
+  /\ returns (rfun w_inner w_fin w_rank) (w_a31 4%N) = true
+  /\ (exists st, rmem_run_stale w_ps w_inner w_fin 3 w_h = ROk (st, map (rfun w_inner w_fin w_rank) w_h)
+        /\ f_calls st = [w_a10 3%N; w_a31 2%N; w_a31 4%N]
+        /\ count_class (args_equal w_ps) (w_a31 4%N) (f_calls st) = 2%nat)
+  /\ (exists st, rmem_run w_ps w_inner w_fin 3 w_h = ROk (st, map (rfun w_inner w_fin w_rank) w_h)
+        /\ f_calls st = [w_a10 3%N; w_a31 2%N]
+        /\ count_class (args_equal w_ps) (w_a31 4%N) (f_calls st) = 1%nat).
+Proof. exact rmem_stale_bucket_refuted. Qed.
+Print Assumptions C18_rmem_stale_bucket_refuted.
